@@ -228,6 +228,17 @@ def run_driver(drv, script, trace, seed=1, leak_every=0, timeout=20, wall=3600, 
     return aborts
 
 
+def execute(drv, script, trace, seed, dopts):
+    """Run one case file through the driver, or through the tool runner (C20)."""
+    d = dict(dopts)
+    runner = d.pop("runner", None)
+    if runner == "tools":
+        import vtools
+        bdir = os.path.dirname(drv)
+        return vtools.run_cases(script, trace, bdir, drv, os.path.join(WORK, "tmp", "tools"), seed) and 0
+    return run_driver(drv, script, trace, seed=seed, **d)
+
+
 # -------------------------------------------------------------- validation
 def validate_trace(trace, prop, outdir, xmx="3g", timeout=1800):
     """Run TLC on spec/Trace.tla over one trace file; returns the RESULT dict."""
@@ -254,7 +265,7 @@ def process_shard(args):
     drv, shard, tracedir, prop, seed, dopts = args
     trace = os.path.join(tracedir, os.path.basename(shard) + ".trace.ndjson")
     t0 = time.time()
-    aborts = run_driver(drv, shard, trace, seed=seed, **dopts)
+    aborts = execute(drv, shard, trace, seed, dopts)
     t1 = time.time()
     nev = sum(1 for _ in open(trace))
     res = validate_trace(trace, prop, tracedir)
@@ -307,7 +318,7 @@ def confirm_case(drv, case_line, prop, seed, dopts, tmpdir):
     d2 = dict(dopts)
     if d2.get("leak_every"):
         d2["leak_every"] = 1
-    run_driver(drv, sp, tp, seed=seed, **d2)
+    execute(drv, sp, tp, seed, d2)
     res = validate_trace(tp, prop, tmpdir)
     events = open(tp).read().splitlines()
     os.remove(sp)
